@@ -32,6 +32,6 @@ def jobs(tier):
     p = os.path.join(os.path.dirname(__file__), "C12.py")
     spec = importlib.util.spec_from_file_location("vfjobs_x_C12", p); m = importlib.util.module_from_spec(spec); m.Job = Job; spec.loader.exec_module(m)
     for j in m.jobs("thorough"):
-        if ".strip." in j.name or ".delete10." in j.name or ".set7." in j.name:
+        if j.group == "C12.edit" and (".strip." in j.name or ".delete10." in j.name or ".set7." in j.name):
             j.group = "C03.d"; j.tiers = ("quick", "thorough") if (".strip." in j.name or j.name.endswith(".le")) else ("thorough",); J.append(j)
     return [j for j in J if tier in j.tiers]
